@@ -184,8 +184,66 @@ def run(ck, F, E):
                        "index += cruncher position", "%s advances the cursor by %s, not by the cruncher-reported position: "
                        "blanks inside the token would be left behind" % (nm, show(adv)), sp)
 
+    # ---- (4b) cruncher positions (how many raw bytes a crunched byte stands for) never decide anything
+    n_pos = 0
+    for b in methods:
+        nm = b.path.split("::")[-1]
+        if nm in ("chomp_string", "chomp_remark", "chomp_data"):
+            continue
+        tainted, uses = position_decisions(b)
+        n_pos += len(tainted)
+        ck.require(not uses, "C12:POSITION:%s" % nm, "positions are not decisions",
+                   "%d position values of the cruncher flow only into cursor arithmetic in %s" % (len(tainted), nm),
+                   "Tokenizer::%s branches on a cruncher position (the number of raw bytes, blanks included, behind a "
+                   "crunched byte): %s -- inserting or deleting blanks there changes the token sequence" %
+                   (nm, "; ".join(uses[:3])), b.span, nontrivial=bool(tainted))
+    ck.floor("C12.cruncher position values tracked", n_pos, 20)
+
     # ---- (5) DATA blanks
     data_rules(ck, F, "C12")
+
+
+def position_decisions(body):
+    """Locals holding the usize component of a LineCruncher item (or LineCruncher::pos()), closed under copies and
+    +/-; -> (tainted locals, [description of each switch / comparison that looks at one])."""
+    def is_pos_place(pl):
+        pr = pl["proj"]
+        return (len(pr) >= 2 and pr[-1].get("k") == "field" and pr[-1].get("i") == 1 and pr[-1].get("adt") == "(tuple)"
+                and pr[-2].get("ty") == "(u8, usize)")
+    tainted = set()
+    for c in body.calls():
+        if c.callee.endswith("LineCruncher::pos") and not c.dest["proj"]:
+            tainted.add(c.dest["local"])
+    changed = True
+    def op_t(o):
+        if o.get("k") not in ("copy", "move"):
+            return False
+        pl = o["place"]
+        return is_pos_place(pl) or (pl["local"] in tainted and body.local_ty(pl["local"]) in ("usize", "(usize, bool)"))
+    while changed:
+        changed = False
+        for bb, i, pl, rv, sp in body.assigns():
+            if pl["proj"] or pl["local"] in tainted:
+                continue
+            t = False
+            if rv["k"] == "use":
+                t = op_t(rv["op"])
+            elif rv["k"] == "binop" and rv["op"] in ("Add", "Sub", "AddWithOverflow", "SubWithOverflow"):
+                t = op_t(rv["a"]) or op_t(rv["b"])
+            if t and body.local_ty(pl["local"]) in ("usize", "(usize, bool)"):
+                tainted.add(pl["local"])
+                changed = True
+    uses = []
+    for bb in sorted(body.reachable()):
+        t = body.term(bb)
+        if t["k"] == "switch" and op_t(t["discr"]):
+            uses.append("match/if on a position at %s:%s" % (t.get("span", {}).get("file", ""), t.get("span", {}).get("line", "")))
+        for st in body.blocks[bb]["stmts"]:
+            if st["k"] == "assign" and st["rv"]["k"] == "binop" and st["rv"]["op"] in ("Eq", "Ne", "Lt", "Le", "Gt", "Ge"):
+                if op_t(st["rv"]["a"]) or op_t(st["rv"]["b"]):
+                    sp = st.get("span") or {}
+                    uses.append("comparison %s on a position at line %s" % (st["rv"]["op"], sp.get("line", "?")))
+    return tainted, uses
 
 
 def data_rules(ck, F, P):
